@@ -37,6 +37,11 @@ pub enum Op {
     /// processing the second member), 2 => unaltered (valid batch)
     Batch { a: u16, b: u16, mode: u8, bad: u8 },
     Codec { case: u16 },
+    /// proving with a FAILED external RNG (0: all-zero, 1: constant byte, 2: 8-byte period, 3: counter): still a function of the stream
+    ProveFaulty { case: u16, model: u8 },
+    /// batch of 3-4 pool cases in which members after the first carry a statement over FOREIGN parameters (kind 0: other h,
+    /// 1: other g_0, 2: other bit length, 3: other degree, 4: none): refused - and always with the same error value
+    BatchForeign { members: Vec<(u16, u8)>, mode: u8 },
 }
 
 #[derive(Clone, Debug, Serialize, Deserialize)]
@@ -67,6 +72,8 @@ fn op_strategy() -> impl Strategy<Value = Op> {
         4 => (any::<u16>(), 0u8..3).prop_map(|(case, mode)| Op::Verify { case, mode }),
         4 => (any::<u16>(), any::<u16>(), 0u8..3, 0u8..3).prop_map(|(a, b, mode, bad)| Op::Batch { a, b, mode, bad }),
         1 => any::<u16>().prop_map(|case| Op::Codec { case }),
+        2 => (any::<u16>(), 0u8..4).prop_map(|(case, model)| Op::ProveFaulty { case, model }),
+        3 => (prop::collection::vec((any::<u16>(), 0u8..5), 3..=4), 0u8..3).prop_map(|(members, mode)| Op::BatchForeign { members, mode }),
     ]
 }
 
@@ -90,6 +97,8 @@ fn sched_strategy(max_threads: usize) -> impl Strategy<Value = SchedSpec> {
 }
 
 struct Built {
+    /// the same commitments and promises over foreign parameters (see Op::BatchForeign)
+    foreign: Vec<RangeStatement<RistrettoPoint>>,
     st: RangeStatement<RistrettoPoint>,
     w: RangeWitness,
     proof: RangeProof<RistrettoPoint>,
@@ -121,11 +130,25 @@ fn build_world(spec: &SchedSpec) -> Result<World, String> {
         }
         let seed = if pc.seed && m == 1 { Some(rand_scalar(&mut rng)) } else { None };
         // every statement holds a CLONE of the one shared parameter object
+        let mut foreign = vec![];
+        for kind in 0..4 {
+            let mut pc = ristretto::create_pedersen_gens_with_extension_degree(ext_of(if kind == 3 { spec.ext % 6 + 1 } else { spec.ext }));
+            if kind == 0 {
+                pc.h_base = pc.h_base + pc.g_base_vec[0];
+                pc.h_base_compressed = pc.h_base.compress();
+            }
+            if kind == 1 {
+                pc.g_base_vec[0] = pc.g_base_vec[0] + pc.h_base;
+                pc.g_base_compressed_vec[0] = pc.g_base_vec[0].compress();
+            }
+            let other = RangeParameters::init(if kind == 2 { if bits < 64 { bits * 2 } else { 32 } } else { bits }, cap, pc).map_err(|e| format!("{:?}", e))?;
+            foreign.push(RangeStatement::init(other, cs.clone(), proms.clone(), seed).map_err(|e| format!("{:?}", e))?);
+        }
         let st = RangeStatement::init(shared.clone(), cs, proms, seed).map_err(|e| format!("{:?}", e))?;
         let w = RangeWitness::init(os).map_err(|e| format!("{:?}", e))?;
         let proof = guarded(|| RangeProof::prove_with_rng(&mut Transcript::new(b"c18"), &st, &w, &mut RngSpec::ChaCha(pc.bulk).make()))?
             .map_err(|e| format!("prover refused a valid witness (m = {} on shared parameters of capacity {}): {:?}", m, cap, e))?;
-        cases.push(Built { st, w, proof });
+        cases.push(Built { foreign, st, w, proof });
     }
     Ok(World { bits, ext: spec.ext, cases })
 }
@@ -208,6 +231,27 @@ fn exec(world: &World, op: &Op) -> Result<u64, String> {
                     modes[*mode as usize % 3],
                 )
             })?;
+            masks_digest(&r)
+        },
+        Op::ProveFaulty { case, model } => {
+            let c = &world.cases[pick(*case, n)];
+            let spec = [RngSpec::Zero, RngSpec::Const(0x5a), RngSpec::Period8(0x0102_0304_0506_0708), RngSpec::Counter(7)][*model as usize % 4].clone();
+            let r = guarded(|| RangeProof::prove_with_rng(&mut Transcript::new(b"c18"), &c.st, &c.w, &mut spec.make()))?;
+            match r {
+                Ok(p) => hash_of(&p.to_bytes()),
+                Err(e) => hash_of(&format!("{:?}", e)),
+            }
+        },
+        Op::BatchForeign { members, mode } => {
+            let mut sts = vec![];
+            let mut proofs = vec![];
+            for (i, (case, kind)) in members.iter().enumerate() {
+                let c = &world.cases[pick(*case, n)];
+                sts.push(if i == 0 || *kind >= 4 { c.st.clone() } else { c.foreign[*kind as usize].clone() });
+                proofs.push(c.proof.clone());
+            }
+            let mut ts: Vec<Transcript> = (0..sts.len()).map(|_| Transcript::new(b"c18")).collect();
+            let r = guarded(|| RangeProof::verify_batch(&mut ts, &sts, &proofs, modes[*mode as usize % 3]))?;
             masks_digest(&r)
         },
         Op::Codec { case } => {
@@ -435,7 +479,7 @@ pub fn def() -> PropertyDef {
         rule: "Three generators. (1) histories x schedules: a pool of 2-5 statements (aggregation 1-4, with / without seed) built from CLONES \
                OF ONE shared parameter object, and one generated history of 5-24 ops per thread for 1-16 threads (quick: <= 8), ops in {create \
                Pedersen generators, construct parameters (small, occasionally 64 x 16), prove(case, rng), verify(case, mode), verify under another context, verify a 2-batch whose second proof is valid / \
-               fails the final check / fails while being processed, encode+decode}; every distinct op is first executed on the calling thread, \
+               fails the final check / fails while being processed, encode+decode, prove(case) with a failed external RNG (all-zero, constant, 8-byte period, counter), verify a 3-4 batch whose later members carry statements over foreign parameters (other h, other g_0, other bit length, other degree - the refusal must be the same error value every time)}; every distinct op is first executed on the calling thread, \
                then the whole list again in reverse order (a result that depends on what ran before differs between the passes), then the \
                threads are released by a barrier with generated spin delays and every op's digest (proof bytes, Ok + masks or Err, generator \
                bytes) must equal the stand-alone digest. (2) cold child processes: 2-16 threads race the FIRST use of the lazily initialised \
